@@ -182,7 +182,7 @@ Proof.
       { unfold eff. assert (0 <? ngrow (c_thr s) = true) as -> by lia. reflexivity. }
       rewrite EFF in I.
       assert (I1 : InvT pm ((nwon (c_thr s) - 1) + 1) (hp c) (norm (st c)) (frs c)) by (fix_k (nwon (c_thr s)); exact I).
-      pose proof (mts_won_inv pm (nwon (c_thr s) - 1) (hp c) (norm (st c)) (frs c) (c_nfid c) (c_nfid c) sz eq_refl ltac:(lia) I1 PW FR) as W.
+      pose proof (mts_won_inv pm (nwon (c_thr s) - 1) (hp c) (norm (st c)) (frs c) (c_nfid c) (c_nfid c) sz sz eq_refl ltac:(lia) I1 PW FR) as W.
       rewrite (g2_is_won _ _ _ PW) in W. cbn [g_blk g_need g_room g_tr] in W.
       unfold mk_frame, hnew in *. cbn [fst snd upd p_x pm] in *.
       constructor; unfold upd; cbn [c_core c_thr hp st frs c_nfid].
@@ -209,7 +209,7 @@ Proof.
         -- exact K.
         -- apply Forall_set_nth; [exact P|]. split; cbn [t_prog t_won]; auto.
         -- apply Forall_set_nth; [exact GW|]. unfold gw_ok, groww, wonw. cbn [t_won t_grow]. lia.
-      * pose proof (mts_won_inv pm (nwon (c_thr s) - 1) (hp c) (st c) (frs c) (c_nfid c) (c_nfid c) sz eq_refl ltac:(lia) I1 PW FR) as W.
+      * pose proof (mts_won_inv pm (nwon (c_thr s) - 1) (hp c) (st c) (frs c) (c_nfid c) (c_nfid c) sz sz eq_refl ltac:(lia) I1 PW FR) as W.
         unfold mk_frame. destruct (mts_won (hp c) (st c) sz) as [[h1 s1] g]. cbn [fst upd p_x pm].
         constructor; unfold upd; cbn [c_core c_thr hp st frs c_nfid].
         -- unfold nwon, ngrow, eff in *. rewrite ?(tsum_set_nth wonw _ _ _ _ ET), ?(tsum_set_nth groww _ _ _ _ ET), ?wonw_mk, ?groww_mk. cbv beta iota.
@@ -235,13 +235,9 @@ Proof.
       inversion PP as [|? ? PA PR]; subst. cbn [act_pos] in PA.
       assert (BE : s_busy (eff (c_thr s) (st c)) = s_busy (st c)) by (unfold eff; destruct (0 <? ngrow (c_thr s)); reflexivity).
       destruct (s_busy (st c)) eqn:B.
-      * pose proof (mts_lost_inv pm (nwon (c_thr s)) (hp c) (eff (c_thr s) (st c)) (frs c) (c_nfid c) (c_nfid c) sz eq_refl I PA FR) as W.
-        unfold mk_frame, mts_lost, hnew in *. cbn [fst snd upd p_x pm g_blk g_need g_room g_tr] in *.
-        destruct (SAME (mkTh r None (t_own t ++ [c_nfid c]) (S (t_done t))
-                   (t_res t ++ [cres i t c (mkCore (mkHeap (S (h_next (hp c))) ((h_next (hp c), sz + ptr_sz) :: h_live (hp c)) (h_allocs (hp c) + 1) (h_frees (hp c)) (h_bad (hp c))) (st c)
-                        ((c_nfid c, mkFr (c_nfid c) (BHeap (h_next (hp c))) (sz + 0) (sz + ptr_sz) (sz + ptr_sz) false) :: frs c) (S (c_nfid c))
-                        (learn pm c (sz + 0) (mkGr (BHeap (h_next (hp c))) (sz + ptr_sz) (sz + ptr_sz) false)) (c_up c) (c_log c ++ create_evs 0 (c_nfid c)))
-                        (mkFr (c_nfid c) (BHeap (h_next (hp c))) (sz + 0) (sz + ptr_sz) (sz + ptr_sz) false) 0]) None) eq_refl eq_refl) as (S1 & S2 & S3).
+      * pose proof (mts_lost_inv pm (nwon (c_thr s)) (hp c) (eff (c_thr s) (st c)) (frs c) (c_nfid c) (c_nfid c) sz sz eq_refl I PA FR) as W.
+        unfold mk_frame, mts_lost, hnew in *. cbn [fst snd g_blk g_need g_room g_tr] in *.
+        match goal with |- CInv (upd _ _ _ ?t') => destruct (SAME t' eq_refl eq_refl) as (S1 & S2 & S3) end.
         constructor; unfold upd; cbn [c_core c_thr hp st frs c_nfid].
         -- rewrite S1. unfold eff in *. rewrite S2. rewrite ?Z.add_0_r. exact W.
         -- cbn [keys map fst]. intros k [<-|A]; [lia|]. specialize (K _ A). lia.
@@ -269,15 +265,13 @@ Proof.
       destruct (pick nw (t_own t)) as [[slot rest]|]; [|exact SKIP].
       destruct (fget (frs c) slot) as [f|] eqn:GF; [|exact SKIP].
       pose proof (finish_inv pm _ _ _ _ slot f I GF) as W. unfold finish.
-      destruct (SAME (mkTh r None rest (S (t_done t))
-                 (t_res t ++ [fres i t c (let '(h1, s1) := bdealloc pm (hp c) (st c) (f_blk f) (f_tr f) in
-                     mkCore h1 s1 (fdel (frs c) slot) (c_nfid c) (c_max c) (c_up c) (c_log c ++ finish_evs (p_x pm) (f_id f))) f]) None) eq_refl eq_refl) as (S1 & S2 & S3).
       assert (WE : InvT pm (nwon (c_thr s)) (fst (bdealloc pm (hp c) (st c) (f_blk f) (f_tr f)))
                         (eff (c_thr s) (snd (bdealloc pm (hp c) (st c) (f_blk f) (f_tr f)))) (fdel (frs c) slot)).
       { unfold eff in *. destruct (0 <? ngrow (c_thr s)).
         - rewrite bdealloc_norm in W. exact W.
         - destruct (bdealloc pm (hp c) (st c) (f_blk f) (f_tr f)). exact W. }
       destruct (bdealloc pm (hp c) (st c) (f_blk f) (f_tr f)) as [h1 s1]. cbn [fst snd] in *.
+      match goal with |- CInv (upd _ _ _ ?t') => destruct (SAME t' eq_refl eq_refl) as (S1 & S2 & S3) end.
       constructor; unfold upd; cbn [c_core c_thr hp st frs c_nfid].
       * rewrite S1. unfold eff in *. rewrite S2. exact WE.
       * intros k A. apply keys_fdel_In in A. apply K, A.
